@@ -342,6 +342,42 @@ pub fn run_check(engine: &dyn Engine, spec: &CheckSpec) -> i32 {
     let mut min_execs = 0usize;
     let mut not_reproduced: Vec<String> = vec![];
     let replays_dir = verif.join("replays");
+    // A watchdog expiry during the batch can be load (16 runs in parallel, other processes on
+    // the machine) rather than a hang: re-execute the case alone with four times the budget and
+    // use what that run says. Only a second expiry is reported as a hang.
+    let mut slow_runs = 0u64;
+    {
+        let slow_ctx = Ctx { engine, scratch: base.join("slow"), workers: 1, run_timeout: spec.run_timeout * 4 };
+        let mut confirmed: Vec<Violation> = vec![];
+        let mut hangs_checked = 0;
+        for v in all_viol.drain(..) {
+            if v.verdict != "hang" {
+                confirmed.push(v);
+                continue;
+            }
+            hangs_checked += 1;
+            if hangs_checked > 6 {
+                confirmed.push(v);
+                continue;
+            }
+            match slow_ctx.exec_cases(std::slice::from_ref(&v.case)).into_iter().next() {
+                Some(st @ JobStatus::Done(_)) | Some(st @ JobStatus::Crashed { .. }) => {
+                    slow_runs += 1;
+                    let (vs, herr) = status_to_violations(&spec.property, &st, &v.case);
+                    if let Some(e) = herr {
+                        harness_errors.push(format!("slow re-run: {}", e));
+                    }
+                    for nv in vs {
+                        if owned(spec, &nv) {
+                            confirmed.push(nv);
+                        }
+                    }
+                }
+                _ => confirmed.push(v),
+            }
+        }
+        all_viol = confirmed;
+    }
     for v in &all_viol {
         if let Some(f) = findings::find_match(&known, v) {
             *known_hits.entry(f.id.clone()).or_insert(0) += 1;
@@ -411,6 +447,7 @@ pub fn run_check(engine: &dyn Engine, spec: &CheckSpec) -> i32 {
     cov.insert("known_findings_hit".into(), json!(known_hits));
     cov.insert("other_property_verdicts_seen".into(), json!(other_prop));
     cov.insert("minimisation_executions".into(), json!(min_execs));
+    cov.insert("watchdog_expiries_that_completed_when_rerun_alone".into(), json!(slow_runs));
     cov.insert("engine".into(), json!(engine.name()));
     cov.insert("profile".into(), json!(spec.profile));
     cov.insert("workers".into(), json!(spec.workers));
